@@ -38,11 +38,11 @@ m = {
         {"name": "mirfacts", "path": "/verif/driver", "serves_properties": [c["property_id"] for c in checks],
          "kind_free_text": "rustc_private driver dumping resolved MIR, ADT definitions and const-evaluated tables of /repo's working tree (4 configurations)"},
         {"name": "cva", "path": "/verif/cva", "serves_properties": [c["property_id"] for c in checks],
-         "kind_free_text": "python3 stdlib static-analysis engine: CFG/dominators, symbolic path enumeration over MIR, set-algebra equivalence, interval and bit-function abstract interpretation, constant-table audits"},
+         "kind_free_text": "python3 stdlib static-analysis engine: MIR desugaring of iterator/Option combinators, CFG/dominators, symbolic path enumeration over MIR, set-algebra equivalence, interval and bit-function abstract interpretation, constant-table audits"},
     ],
     "checks": checks,
     "not_applicable": na,
-    "notes": "Static analysis only. Every check re-extracts facts from /repo's current working tree (content-hashed cache under /verif/.cache). Repairs of the eight genuine defects found are 'fix:' commits in /repo, listed in known_findings.txt.",
+    "notes": "Static analysis only. Quick tier: default build configuration (C19 also overflow-checks off). Thorough tier: the same rules on all four build configurations (default; overflow-checks and debug assertions off; PEXT slider back end; std feature) plus the compile_fail witnesses of C06. tools/selftest.py replays the mutant/seed/refactor matrix. Every check re-extracts facts from /repo's current working tree (content-hashed cache under /verif/.cache). Repairs of the eight genuine defects found are 'fix:' commits in /repo, listed in known_findings.txt.",
 }
 json.dump(m, open(os.path.join(HERE, "MANIFEST.json"), "w"), indent=1)
 print("claimed:", [c["property_id"] for c in checks])
